@@ -38,7 +38,13 @@ class ASTWalker:
         # function node too
         if isinstance(node, OverloadedFuncDef):
             # Overloads are represented by their implementation; a property with a setter has none, there we take the getter
-            node = node.impl if node.impl is not None else node.items[0]
+            # (decorated functions that are just defined again are grouped like overloads: the last definition counts)
+            if node.impl is not None:
+                node = node.impl
+            elif isinstance(node.items[0], Decorator) and (node.items[0].func.is_property or node.items[0].func.is_overload):
+                node = node.items[0]
+            else:
+                node = node.items[-1]
         if isinstance(node, Decorator):
             node = node.func
 
